@@ -15,6 +15,8 @@ OBLIGATIONS = [
     (P + "no_crash_fcgi", "FastCGI: likewise (cache never read into when full, front() only on non-empty vectors, unknown-role body large enough, negative CONTENT_LENGTH never reaches resize); model recursion budgets suffice"),
     (P + "no_crash_http", "HTTP: likewise; header_.resize(size()-2) and bracket_counter_-- never wrap (parser invariant), with or without the 16 KiB cap firing"),
     (P + "record_sizes_exact", "FastCGI record reader: rec_size = content_length + padding_length computed in the declared type of the variable (regenerated, both paths) never wraps for any header the wire can carry; narrowing the type breaks this and no_crash_fcgi"),
+    (P + "forwarder_buffer_bounded", "cgi_forwarder (forwarding.rules): the relay buffer sized from CONTENT_LENGTH by the regenerated expression is 1..8192 bytes for every positive CONTENT_LENGTH, however absurd"),
+    (P + "forwarder_relay_safe", "cgi_forwarder relay loop: no resize beyond 8 KiB, no front() of an empty vector, for any read lengths"),
     (P + "pool_no_overflow", "string_pool page bookkeeping (page size, allocate_space conditions, which block clear() keeps: regenerated from private/string_map.h): for every sequence of allocations and clear()s no allocation is handed bytes outside its malloc block (D18 is the false case)"),
     (P + "cgi_layer_no_crash", "protocol independent layer (cgi_api.cpp / http_context.cpp / http_request.cpp callbacks regenerated as CStmt programs, interpreted with fall-through semantics): no callback goes on after handing the request on, none ends without handing it on, never two operations pending; the machine stops early only for multipart (C12)"),
     (P + "request_actions_ok", "every request's action list (early main, end-of-content, error page, completion handler, on_error, dispatch) has one of three shapes: application / error page / dropped"),
@@ -142,8 +144,10 @@ def main():
     else:
         cases = gen_cases(c, scale)
 
-    if hbin and os.path.exists(model) and cases:
-        hp, crashes = run_impl(c, hbin, cases)
+    fwd_replay = [x for x in cases if x.api == "fwd"]
+    cases = [x for x in cases if x.api != "fwd"]
+    if hbin and os.path.exists(model) and (cases or fwd_replay):
+        hp, crashes = run_impl(c, hbin, cases) if cases else (None, [])
         done = run_model(c, model, cases, hp)
         c.evaluations += len(done)
         c.traces_validated += len(done)
@@ -190,6 +194,54 @@ def main():
         c.extra_cov["outcome_distribution"] = dict(sorted(kinds.items(), key=lambda kv: -kv[1])[:25])
         pick = [done[i] for i in (0, len(done) // 3, len(done) // 2, len(done) - 1)] if done else []
         c.samples = [{"case": x.line()[:300], "reads": x.d.get("reads"), "impl": x.impl[:300], "model": x.model[:300]} for x in pick]
+        # ---- the service with forwarding.rules (cgi_forwarder): safety of forwarded requests, faithful relay
+        fwd = [(x, "absurd") for x in fwd_replay] + (gen_fwd_cases(c.rng, 25 * scale) if not c.replay_path else [])
+        fcases = [x for x, _ in fwd]
+        kinds = {id(x): k for x, k in fwd}
+
+        def fwd_judge(cases_done):
+            res, jl, jx = [], [], []
+            for x in cases_done:
+                if not x.d or "calls" not in x.d:
+                    continue
+                kind = kinds.get(id(x), getattr(x, "_kind", "absurd"))
+                jl.append(fwd_judge_line(x, kind)); jx.append((x, "property predicate Spec.fwdOk false (forwarded request): " +
+                          ("exception left service::run(): " + bytes.fromhex(x.d["exc"]).decode("latin1") if x.d.get("exc", "-") != "-" else
+                           "probe / close / answer: flags=" + x.d.get("flags", "?") + " probe=" + x.d.get("probe", "?") + " impl=" + (x.impl or "")[:80])))
+                if kind == "wf" and x.absreq is not None:
+                    l = view_judge_line(x)
+                    if l is None:
+                        res.append((x, "well-formed forwarded request was not relayed to the backend / its answer not relayed back"))
+                    else:
+                        jl.append(l); jx.append((x, "forwarded request: the backend application did not observe the request the peer sent (Spec.viewOk false)"))
+            rc, jout, jerr = c.run_lines(model, jl, timeout=3000) if jl else (0, [], "")
+            if len(jout) != len(jl):
+                c.broke("judge", f"model driver answered {len(jout)} of {len(jl)} judge lines: {jerr[-800:]}")
+            for (x, why), o in zip(jx, jout):
+                if o != "1":
+                    res.append((x, why))
+            return res
+        if fcases:
+            fcr = run_fwd(c, hbin, fcases)
+            c.evaluations += len(fcases)
+            c.extra_cov["forwarded_cases"] = {k: sum(1 for _, kk in fwd if kk == k) for k in ("wf", "dead", "absurd", "truncated")}
+            fbad = fwd_judge(fcases)
+            for x, err in fcr:
+                fbad.append((x, "sanitizer abort / crash of the real service (forwarded request): " + " ".join(l.strip() for l in err.splitlines() if "ERROR" in l or "runtime error" in l)[:300], err))
+            # soft failures of forwarded cases are re-played like the others
+            hard = [it for it in fbad if len(it) > 2 or "exception left" in it[1]]
+            soft = [it for it in fbad if it not in hard]
+            for it in soft[:20]:
+                x = it[0]
+                again = False
+                for _ in range(3):
+                    y = clone_case(x); kinds[id(y)] = kinds.get(id(x), "absurd")
+                    cr = run_fwd(c, hbin, [y])
+                    if cr or fwd_judge([y]):
+                        again = True; break
+                if again:
+                    hard.append((x, it[1] + " (reproduced on re-play)"))
+            bad += hard
         for x, err in crashes:
             bad.append((x, "sanitizer abort / crash of the real service: " + " ".join(l.strip() for l in err.splitlines() if "ERROR" in l or "runtime error" in l)[:300], err))
         if not c.replay_path:
